@@ -26,7 +26,21 @@ s = s.replace(needle, needle + '''
 		}
 		verifMapIdx++
 	}''')
+# the per-map hash seed decides how keys spread over buckets; pin it while the seam is on so that maps
+# with more than one bucket iterate reproducibly (as far as key hashes themselves are reproducible)
+n0 = s.count("h.hash0 = uint32(rand())")
+if n0 < 3:
+    sys.stderr.write("gen_map_overlay: expected hash0 seeding sites not found\n")
+    sys.exit(3)
+s = s.replace("h.hash0 = uint32(rand())", "h.hash0 = verifHash0()")
 s += '''
+func verifHash0() uint32 {
+	if verifMapOn {
+		return 0x9e3779b9
+	}
+	return uint32(rand())
+}
+
 // ---- verification seam (injected by /verif/tools/goroot-overlay; never present in a normal build) ----
 
 //go:linkname verifMapOn
